@@ -75,6 +75,19 @@ def check_grid(c):
             Xf2 = teneva.ind_to_poi(teneva.grid_flat(n).reshape(-1, 1), a, b, n, kind)
         res.check(np.array_equal(np.asarray(Xf, dtype=float), X) and np.array_equal(np.asarray(Xf2, dtype=float), X), 'pipeline.flat_to_poi', case,
                   'ind_to_poi(grid_flat(n)) differs from ind_to_poi(arange(n))', tags)
+        # equivalent argument forms: float / NumPy-integer grid size, list / other integer dtypes for the indices, NumPy-float bounds
+        with warnings.catch_warnings():
+            warnings.simplefilter('ignore')
+            okf = True
+            for nf in (float(n), np.int64(n), np.int32(n), np.float64(n)):
+                okf = okf and np.array_equal(teneva.ind_to_poi(I, a, b, nf, kind), X) and np.array_equal(teneva.poi_to_ind(X, a, b, nf, kind), J)
+            okf = okf and np.array_equal(teneva.ind_to_poi(I.tolist(), a, b, n, kind), X)
+            okf = okf and np.array_equal(teneva.ind_to_poi(I.astype(np.int32), np.float64(a), np.float64(b), n, kind), X)
+            if n <= 256:
+                okf = okf and np.array_equal(teneva.ind_to_poi(I.astype(np.uint8), a, b, n, kind), X)
+            okf = okf and np.array_equal(teneva.poi_to_ind(X.tolist(), a, b, n, kind), J)
+            okf = okf and np.array_equal(teneva.poi_to_ind(np.asfortranarray(X), [a], [b], [n], kind), J)
+        res.check(bool(okf), 'forms', case, 'an equivalent form of n / the bounds / the index array changes the map', tags)
         # single index / list / 1-D forms give the same bits
         i0 = n // 2
         one = teneva.ind_to_poi([i0], a, b, n, kind)
